@@ -28,7 +28,7 @@ TECHNIQUE = (
 )
 RULE = (
     "partA: all extractors with filter strings; states = reachable (NFA state set, filter state) pairs, transitions = atom steps; "
-    "partB: all documents of <= k fragments x full extractor list, every reporter string of the database in two minimal forms, and all 1024 sub-lists of a 10-extractor pool x all documents "
+    "partB: all documents of <= k fragments x full extractor list, every reporter string of the database in two minimal forms, and all 1024 sub-lists of a 10-extractor pool x all documents; construction histories: every sequence of <= 2 (quick) / 3 tokenizer constructions over 5 extractor lists, all tokenizers re-checked after each "
     "of <= 2 fragments of a 14-fragment alphabet. non-trivial = extractor whose product space has > 1 state / document on which "
     ">= 1 extractor matches."
 )
@@ -366,8 +366,51 @@ def sub_pool():
     return pick
 
 
+# ---- construction histories: building one tokenizer must not change what another one returns -------------------------
+H_TEXTS = ["See 1 T.C. at 1.", "1 H. 1", "supra,§,", "1 CCH Unemployment Ins. Rep. 1", "12 T.C. at 345", "AFF'D§ 3", "1 U.S. at 5", "Foo v. Bar, 1 U.S. 1; id. at 5", "1 Wash. 2d 3"]
+H_OPS = ["full", "noshort", "short", "reversed", "pool"]
+
+
+def h_list(op):
+    ex = T.EXTRACTORS
+    if op == "full":
+        return list(ex)
+    if op == "noshort":
+        return [e for e in ex if not e.extra.get("short")]
+    if op == "short":
+        return [e for e in ex if e.extra.get("short")] + list(ex[-5:])
+    if op == "reversed":
+        return list(reversed(ex))
+    return sub_pool()
+
+
+def check_history(hist):
+    """Build the tokenizers named in hist one after another (all over the shared extractor objects); after each
+    construction every tokenizer built so far - and the module-level default one - must still agree with the unfiltered
+    reference run on its own extractor list."""
+    res = []
+    built = [("default", T.default_tokenizer, list(T.default_tokenizer.extractors))]
+    refs = {}
+    for step, op in enumerate(hist):
+        L = h_list(op)
+        built.append((op, T.AhocorasickTokenizer(extractors=L), L))
+        for name, tk, lst in built:
+            key = id(tk)
+            if key not in refs:
+                refs[key] = [T.Tokenizer(extractors=lst).tokenize(t) for t in H_TEXTS]
+            for t, want in zip(H_TEXTS, refs[key]):
+                got = tk.tokenize(t)
+                if stream(got[0]) != stream(want[0]):
+                    diff = next(((x, y) for x, y in itertools.zip_longest(stream(got[0]), stream(want[0])) if x != y), None)
+                    res.append(("history-stream-differs", f"after constructing {hist[: step + 1]}, tokenizer '{name}' gives {diff[0]!r} for {t!r}, the reference with its extractor list gives {diff[1]!r}"))
+                    return res
+    return res
+
+
 def replay(case):
     setup("replay", 0)
+    if case["part"] == "H":
+        return [{"msg": f"{lab}: {det}", "label": lab} for lab, det in check_history(case["hist"])]
     if case["part"] == "A":
         viol, herr, _ = check_extractor(case["extractor"])
         return [{"msg": f"{lab}: {det}", "label": lab} for lab, det, c in viol if c["word"] == case["word"]] or [
@@ -396,6 +439,9 @@ def shards(tier, seed):
         out.append({"part": "S", "r": r, "n": 32})
     for r in range(32):
         out.append({"part": "BS", "r": r, "n": 32})
+    for k in (1, 2) if tier == "quick" else (1, 2, 3):
+        for hist in itertools.product(H_OPS, repeat=k):
+            out.append({"part": "H", "hist": list(hist)})  # one freshly forked process per history
     for bi in range(len(BLOCK_SIZES)):
         out.append({"part": "blocks", "bi": bi})
     out.append({"part": "meta"})
@@ -413,6 +459,19 @@ def run_shard(sh):
         st.extra["view_pairs_checked"] = len(G["atoms"]) ** 2
         st.extra["code_points_observed"] = rx.NCP
         st.traces += len(G["atoms"]) ** 2
+        return st
+    if sh["part"] == "H":
+        res = check_history(sh["hist"])
+        st.evaluations += 1
+        st.traces += len(sh["hist"]) * len(H_TEXTS)
+        st.transitions += len(sh["hist"])
+        p["evaluations"] += 1
+        k = h64(["H", sh["hist"]])
+        st.states.add(k)
+        st.nontrivial.add(k)
+        st.outcomes.add(h64([r[0] for r in res]))
+        for lab, det in res:
+            st.violation({"part": "H", "hist": sh["hist"]}, f"{lab}: {det}", label="H-" + lab)
         return st
     if sh["part"] == "A":
         for i in range(sh["r"], len(tk.extractors), sh["n"]):
